@@ -79,7 +79,7 @@ func (fr *frame) doCall(c *ssa.CallCommon, args []SV, cur *State, instr *ssa.Cal
 		if fv.fn != nil && len(fv.fn.Blocks) > 0 && !hasLoops(fv.fn) && fr.depth < maxInlineDepth {
 			return fr.inline(fv.fn, args, fv.bnd, cur, rtyp)
 		}
-		return fr.opaque("func-value", c, args, cur, rtyp, false)
+		return fr.opaque("func-value (called in "+funcKey(fr.fn)+")", c, args, cur, rtyp, false)
 	}
 	// closures / function values
 	if callee == nil && !c.IsInvoke() {
@@ -87,7 +87,7 @@ func (fr *frame) doCall(c *ssa.CallCommon, args []SV, cur *State, instr *ssa.Cal
 		if fv.fn != nil && len(fv.fn.Blocks) > 0 && !hasLoops(fv.fn) && fr.depth < maxInlineDepth {
 			return fr.inline(fv.fn, args, fv.bnd, cur, rtyp)
 		}
-		return fr.opaque("func-value", c, args, cur, rtyp, false)
+		return fr.opaque("func-value (called in "+funcKey(fr.fn)+")", c, args, cur, rtyp, false)
 	}
 	if con := vc.contractFor(key); con != nil {
 		isSelf := callee != nil && callee == vc.fn && fr.top
